@@ -65,10 +65,12 @@ def derived_event(beacon, cfg, extra=()):
     return e
 
 
-def pairs_event(beacon, text: bytes, pad=256):
-    blk = tlv.block([tlv.short(1, 0), tlv.ptr(8, text, max(pad, len(text)))], patch_size=0) + b"\x00\x00"
+def pairs_event(beacon, text: bytes, pad=256, earlier=None):
+    # `earlier`: the same setting occurs before with another value - the mappings keep the last occurrence, and so do the pairs
+    recs = [tlv.short(1, 0)] + ([tlv.ptr(8, earlier, max(pad, len(earlier))), tlv.short(2, 80)] if earlier is not None else []) + [tlv.ptr(8, text, max(pad, len(text)))]
+    blk = tlv.block(recs, patch_size=0) + b"\x00\x00"
     o = core.guarded(lambda: (lambda c: (c.domain_uri_pairs, c.domains, c.uris))(beacon.BeaconConfig(blk)), seconds=10)
-    enc = lambda s: [0] if s is None else L(s.encode("latin-1"))  # noqa: E731
+    enc = lambda s: [0] if s is None else [min(ord(ch), 256) for ch in s]  # noqa: E731  (256: a character that is no byte)
     e = {"op": "pairs", "text": L(text), "r": "ok" if o[0] == "ok" else str(o[1])[:200], "pairs": [], "domains": [], "uris": []}
     if o[0] == "ok":
         pr, ds, us = o[1]
@@ -129,7 +131,7 @@ def derived_part(ctx, beacon, rng):
     alpha = b"ab./,,\x00-_:\xe9"
     for _ in range(150 if q else 6000):
         text = bytes(rng.choice(alpha) for _i in range(rng.randrange(0, 30)))
-        ev.append(pairs_event(beacon, text, pad=rng.choice([0, 64, 256])))
+        ev.append(pairs_event(beacon, text, pad=rng.choice([0, 64, 256]), earlier=rng.choice([None, None, b"first.example,/first", b"", b"x,/y,z,/w"])))
         ctx.evaluations += 1
     canary = dict(derived_event(beacon, [(16, 2021), (17, 12), (18, 31)]), kill=L(b"2021-12-30"))
     bad = core.tlc_judge(ctx, "DerivedIO", "", ev, name="derived-trace", env={"TIER": ctx.tier}, timeout=2400, canary=canary)
@@ -238,6 +240,9 @@ CHECK_DEADLOCK FALSE
     rng = random.Random(ctx.seed + 3)
     for _ in range(60 if q else 1500):
         body = bytes(rng.randrange(1, 256) for _ in range(rng.randrange(0, 40)))
+        if _ % 4 == 0:
+            # bytes that happen to be well-formed UTF-8 with multi-byte sequences: still one character per byte
+            body = rng.choice(["é", "k\u00e7i.com", "€uro", "日本語", "a\u00a0b", "\U0001F600", "naïve café"]).encode("utf-8")
         raw = body + b"\x00" + bytes(rng.randrange(256) for _ in range(rng.randrange(0, 20)))
         for idx, name in ((26, "SETTING_C2_VERB_GET"), (29, "SETTING_SPAWNTO_X86"), (15, "SETTING_PIPENAME"), (54, "SETTING_HOST_HEADER"), (10, "SETTING_SUBMITURI")):
             o = get(idx, raw, name)
@@ -331,13 +336,15 @@ CHECK_DEADLOCK FALSE
     for idx in SCALAR:
         for _ in range(3 if q else 60):
             body = bytes(rng.randrange(1, 256) for _ in range(rng.choice([0, 1, 5, 16, 40])))
+            if _ % 3 == 0:
+                body = rng.choice(["é", "€uro", "日本語", "naïve café", "\U0001F600x"]).encode("utf-8")
             raw = rng.choice([body, body + b"\x00", body + b"\x00" + bytes(rng.randrange(256) for _ in range(rng.randrange(1, 12))), body.ljust(64, b"\x00")])
             if idx == 9:
                 raw = raw[:100]  # (the 128-byte User-Agent continuation is C02's subject)
             o = core.guarded(lambda: cfg_with(beacon, idx, raw).settings_by_index[idx], seconds=10)
             ctx.evaluations += 1
             out = o[1] if o[0] == "ok" else None
-            codes = L(out.encode("latin-1")) if isinstance(out, str) else L(out) if isinstance(out, bytes) else [256]
+            codes = [min(ord(ch), 256) for ch in out] if isinstance(out, str) else L(out) if isinstance(out, bytes) else [256]
             ev.append({"op": "scalar", "idx": idx, "bytes": L(raw), "r": "ok" if o[0] == "ok" else str(o[1])[:100], "out": codes})
     for v in (0, 1, 2, 3, 65535):
         o = core.guarded(lambda: beacon.BeaconConfig(tlv.block([tlv.short(1, 0), tlv.short(16, v)], patch_size=0) + b"\x00\x00").settings_by_index[16], seconds=10)
